@@ -358,7 +358,7 @@ func Run(s *simrt.Sim, a *harness.Args, r *harness.Result) {
 		// lifetime of a signature made now)
 		up := false
 		s.Spawn("uptime", inc, func() {
-			time.Sleep(uptime)
+			simrt.Sleep(uptime)
 			simrt.Yield("uptime:over")
 			up = true
 		})
